@@ -921,6 +921,11 @@ class Function(Inheritable):
         super().setup()
         if isinstance(self.parent, Class):
             self.kind = DocumentableKind.METHOD
+        # The builder fills these in while it visits the definition; a visit that is given up
+        # half-way (recursion limit) must not leave a function the renderer cannot handle.
+        self.is_async = False
+        self.annotations = {}
+        self.decorators = None
         self.signature = None
         self.overloads = []
 
